@@ -416,3 +416,76 @@ def check_cubic(chk, F, M, I, rows, i, roles, J, m):
                and vec_zero(e.value.add(Vec.atom((tg, sp.expand(jv))).add(Vec.atom((tg, sp.expand(jv + 1))).scale(cp[0]), -1), -1))
                and sym.is_zero(Lb.lo - (n - 1)) and Lb.hi == 0 and Lb.cond_op == ">=" and sym.is_zero(e.key[0] - jv))
     chk.ob("C02-R3", "%s backward sweep x_i -= c'_i x_{i+1} from row N-1 down to 0" % cls, okb, loc(g), "", construct=cls + "/thomas/backward")
+
+
+def cubic_rows(F, M):
+    """The tridiagonal system of the cubic spline exactly as the code assembles it (scaling included):
+    {'arr': second-derivative array, 'interior': f(m) -> Vec (row m, = 0), 'row0': Vec, 'rown': Vec}.
+    Raises Broken when the Thomas recurrences cannot be recognised (see check_cubic for the obligations)."""
+    I0, Lc, rows = c01.closure_rows(F, M)
+    i = Lc.var
+    roles = c01.deriv_roles(M, rows, i)
+    n = sp.Symbol(M.m_count, integer=True, positive=True)
+    arr = roles[2][0].split("#")[0]
+    I = I0
+    defs = I.local_defs()
+
+    def ex_v(v):
+        return norm_vec(M.expand_vec(I.expand_local(v, defs)))
+
+    fw = [L for L in I.loops if len({e.target for e in L.effects if len(e.key) == 1 and isinstance(e.value, sp.Basic)}) >= 2]
+    if len(fw) != 1:
+        raise Broken("cubic elimination loop not identified")
+    Lf = fw[0]
+    iv = Lf.var
+    scal = [e for e in Lf.effects if isinstance(e.value, sp.Basic)]
+    cand = None
+    for e in scal:
+        ex = M.expand_scalar(e.value)
+        den = sp.expand(1 / ex)
+        prev = [x for x in ex.atoms(sp.Indexed) if not str(x.base).startswith(M.m_durations)]
+        if len(prev) == 1 and sp.denom(sp.together(den)) == 1 and sp.Poly(sp.numer(sp.together(den)), prev[0]).degree() == 1:
+            cand = (e, den, prev[0])
+    if cand is None:
+        raise Broken("pivot recurrence not recognised")
+    e_inv, den, cprev = cand
+    Bc = sp.expand(-sp.diff(den, cprev))
+    Ac = sp.expand(den + Bc * cprev)
+    e_c = [e for e in scal if e is not e_inv and str(cprev.base).split("#")[0] == e.target]
+    if len(e_c) != 1:
+        raise Broken("c' recurrence not recognised")
+    Cc = sp.simplify(M.expand_scalar(e_c[0].value) * den)
+    rng = [r for r in I.effects_ranges if r[0] == arr]
+    if len(rng) != 1:
+        raise Broken("cubic right-hand side range assignment not found")
+    _, rstart, rcount, rvec, rline = rng[0]
+
+    def interior(mm):
+        rhs_m = sub_vec(ex_v(rvec), sym.RSYM, mm - rstart)
+        return (Vec.atom((arr, sp.expand(mm - 1))).scale(Bc.subs(iv, mm)).add(Vec.atom((arr, sp.expand(mm))).scale(Ac.subs(iv, mm)))
+                .add(Vec.atom((arr, sp.expand(mm + 1))).scale(Cc.subs(iv, mm))).add(rhs_m, -1))
+
+    st = I.effects
+
+    def straight(target, idx, ops=("=",)):
+        return [e for e in st if e.target == target and len(e.key) == 1 and not isinstance(e.key[0], str) and sym.is_zero(e.key[0] - idx) and e.op in ops]
+    inv0 = straight(e_inv.target, 0)
+    c0 = straight(e_c[0].target, 0)
+    rhs0 = straight(arr, 0)
+    if not (inv0 and c0 and rhs0):
+        raise Broken("first row of the cubic system not found")
+    a0 = sp.simplify(1 / M.expand_scalar(inv0[-1].value))
+    c0v = sp.simplify(M.expand_scalar(c0[-1].value) * a0)
+    row0 = Vec.atom((arr, Integer(0))).scale(a0).add(Vec.atom((arr, Integer(1))).scale(c0v)).add(ex_v(rhs0[0].value), -1)
+    invn = straight(e_inv.target, n)
+    rhsn = straight(arr, n)
+    if not (invn and rhsn):
+        raise Broken("last row of the cubic system not found")
+    denn = sp.expand(1 / M.expand_scalar(invn[-1].value))
+    cps = [x for x in denn.atoms(sp.Indexed) if not str(x.base).startswith(M.m_durations)]
+    if len(cps) != 1:
+        raise Broken("last pivot recurrence not recognised")
+    Bn = sp.expand(-sp.diff(denn, cps[0]))
+    An = sp.expand(denn + Bn * cps[0])
+    rown = Vec.atom((arr, sp.expand(n - 1))).scale(Bn).add(Vec.atom((arr, n)).scale(An)).add(ex_v(rhsn[0].value), -1)
+    return {"arr": arr, "interior": interior, "row0": row0, "rown": rown, "inv": e_inv.target, "cprime": e_c[0].target, "lower": Bc, "upper": Cc, "var": iv}
